@@ -85,9 +85,13 @@ func NewTargetsManager(storeDir string, promRegistry prometheus.Registerer, log 
 }
 
 // Load load local targets information from storeDir
-func (t *TargetsManager) Load() error {
+func (t *TargetsManager) Load() (err error) {
 	_ = os.MkdirAll(t.storeDir, 0755)
 	defer func() {
+		if err != nil {
+			// a store that could not be read must not be overwritten with what was loaded so far
+			return
+		}
 		_ = t.UpdateTargets(&shard.UpdateTargetsRequest{Targets: t.targets.Targets})
 	}()
 
